@@ -1,5 +1,6 @@
 // rvh — runs the real rivia code on scripts; one result line per script line.
 // Protocol: DESIGN.md Appendix C. Strings are hex of UTF-8 bytes.
+mod conc;
 mod core;
 mod handles;
 mod memext;
@@ -26,6 +27,9 @@ pub fn unhex_s(s: &str) -> String {
 }
 
 fn hist_dispatch(fields: &[&str]) -> Option<String> {
+    if fields[0] == "conc" {
+        return Some(conc::run(fields));
+    }
     if fields[0] == "entrydv" {
         return Some(wrap::entrydv(fields));
     }
